@@ -10,8 +10,10 @@
 (* check fills with the orderings EXTRACTED from the running code          *)
 (* (DESIGN.md 3.3), as is the number of slots (`NSlots`).                  *)
 (*                                                                         *)
-(* Thread 0 (producer) pushes the values 1..NPush, thread 1 (consumer)     *)
-(* pops NPop times.                                                        *)
+(* Thread 0 (producer) pushes the values 1..NPush, every consumer thread   *)
+(* (1..NCons) pops NPop times.  With Handover the consumers pass the       *)
+(* has_consumer token (acquire_consumer = CAS, drop = store) - the         *)
+(* "producer/consumer hand-over between threads" of the statement.         *)
 (***************************************************************************)
 EXTENDS Naturals, Sequences, FiniteSets, TLC
 
@@ -19,14 +21,18 @@ CONSTANTS Cap,        \* capacity
           NSlots,     \* number of data cells (Cap, resp. Cap+1 for the overflowing queue)
           Overflow,   \* BOOLEAN
           NPush, NPop,
-          Ord         \* record: p_wp p_rp p_st p_cas_s p_cas_f c_rp c_wp c_st c_cas_s c_cas_f
+          NCons,      \* number of consumer threads (1; 2 = consumer hand-over between two threads)
+          Handover,   \* BOOLEAN: consumers must hold the has_consumer token (acquire_consumer / drop)
+          Ord         \* record: p_wp p_rp p_st p_cas_s p_cas_f c_rp c_wp c_st c_cas_s c_cas_f hc_s hc_f hc_rel
 
 WP == <<"wp", 0>>
 RP == <<"rp", 0>>
 Slot(i) == <<"s", i>>
 Mark(i) == <<"g", i>>
-Loc == {WP, RP} \cup {Slot(i) : i \in 0..NSlots-1} \cup {Mark(i) : i \in 0..NSlots-1}
-Thr == {0, 1}
+HC == <<"hc", 0>>           \* has_consumer flag: 1 = a consumer may be acquired
+Loc == {WP, RP, HC} \cup {Slot(i) : i \in 0..NSlots-1} \cup {Mark(i) : i \in 0..NSlots-1}
+Cons == 1..NCons
+Thr == 0..NCons
 
 VARIABLES mem, tv, acqv, relv, sc
 INSTANCE C11Mem
@@ -36,23 +42,25 @@ VARIABLES pc,        \* [Thr -> label]
           cr, cw,    \* consumer registers
           cval,      \* value read by the consumer from the slot
           nextv,     \* next value to push
-          npop,      \* pops started
+          npop,      \* [consumer -> pops started]
+          holds,     \* [consumer -> holds the consumer token]
           pushres,   \* sequence of push results: "ok" | "full" | <<"ev", v>> as [r, v]
           popped,    \* sequence of values returned by pop (0 = none is not recorded)
           nones,     \* number of pops that returned none
           evicted,   \* sequence of values handed back to the producer
           race       \* a plain write raced with an earlier access (data race)
 
-lvars == <<pc, pw, pr, cr, cw, cval, nextv, npop, pushres, popped, nones, evicted, race>>
+lvars == <<pc, pw, pr, cr, cw, cval, nextv, npop, holds, pushres, popped, nones, evicted, race>>
 vars == <<mem, tv, acqv, relv, sc, lvars>>
 
 UseMarks == ~Overflow
 
 Init ==
-    /\ MemInit([l \in Loc |-> 0])
+    /\ MemInit([l \in Loc |-> IF l = HC THEN 1 ELSE 0])
     /\ pc = [t \in Thr |-> "idle"]
-    /\ pw = 0 /\ pr = 0 /\ cr = 0 /\ cw = 0 /\ cval = 0
-    /\ nextv = 1 /\ npop = 0
+    /\ pw = 0 /\ pr = 0
+    /\ cr = [c \in Cons |-> 0] /\ cw = [c \in Cons |-> 0] /\ cval = [c \in Cons |-> 0]
+    /\ nextv = 1 /\ npop = [c \in Cons |-> 0] /\ holds = [c \in Cons |-> FALSE]
     /\ pushres = <<>> /\ popped = <<>> /\ nones = 0 /\ evicted = <<>>
     /\ race = FALSE
 
@@ -63,7 +71,7 @@ PStart ==
     /\ pc[0] = "idle" /\ nextv <= NPush
     /\ Goto(0, "p_ldwp")
     /\ MemSkip
-    /\ UNCHANGED <<pw, pr, cr, cw, cval, nextv, npop, pushres, popped, nones, evicted, race>>
+    /\ UNCHANGED <<pw, pr, cr, cw, cval, nextv, npop, holds, pushres, popped, nones, evicted, race>>
 
 PLoadWp ==
     /\ pc[0] = "p_ldwp"
@@ -71,7 +79,7 @@ PLoadWp ==
           /\ Load(0, WP, Ord.p_wp, i)
           /\ pw' = ValAt(WP, i)
     /\ Goto(0, "p_ldrp")
-    /\ UNCHANGED <<pr, cr, cw, cval, nextv, npop, pushres, popped, nones, evicted, race>>
+    /\ UNCHANGED <<pr, cr, cw, cval, nextv, npop, holds, pushres, popped, nones, evicted, race>>
 
 PLoadRp ==
     /\ pc[0] = "p_ldrp"
@@ -84,7 +92,7 @@ PLoadRp ==
                   /\ Goto(0, "idle")
              ELSE /\ Goto(0, "p_wr")
                   /\ UNCHANGED <<pushres, nextv>>
-    /\ UNCHANGED <<pw, cr, cw, cval, npop, popped, nones, evicted, race>>
+    /\ UNCHANGED <<pw, cr, cw, cval, npop, holds, popped, nones, evicted, race>>
 
 PWriteSlot ==
     /\ pc[0] = "p_wr"
@@ -92,7 +100,7 @@ PWriteSlot ==
           /\ Store(0, Slot(s), "Relaxed", nextv)
           /\ race' = (race \/ (UseMarks /\ ~WriteRaceFree(0, Slot(s), Mark(s))))
     /\ Goto(0, "p_st")
-    /\ UNCHANGED <<pw, pr, cr, cw, cval, nextv, npop, pushres, popped, nones, evicted>>
+    /\ UNCHANGED <<pw, pr, cr, cw, cval, nextv, npop, holds, pushres, popped, nones, evicted>>
 
 PStoreWp ==
     /\ pc[0] = "p_st"
@@ -103,7 +111,7 @@ PStoreWp ==
        ELSE /\ pushres' = Append(pushres, [r |-> "ok", v |-> 0])
             /\ nextv' = nextv + 1
             /\ Goto(0, "idle")
-    /\ UNCHANGED <<pw, pr, cr, cw, cval, npop, popped, nones, evicted, race>>
+    /\ UNCHANGED <<pw, pr, cr, cw, cval, npop, holds, popped, nones, evicted, race>>
 
 PCasRp ==
     /\ pc[0] = "p_cas"
@@ -115,7 +123,7 @@ PCasRp ==
              ELSE /\ pushres' = Append(pushres, [r |-> "ok", v |-> 0])
                   /\ nextv' = nextv + 1
                   /\ Goto(0, "idle")
-    /\ UNCHANGED <<pw, pr, cr, cw, cval, npop, popped, nones, evicted, race>>
+    /\ UNCHANGED <<pw, pr, cr, cw, cval, npop, holds, popped, nones, evicted, race>>
 
 PReadEvicted ==
     /\ pc[0] = "p_rdev"
@@ -125,69 +133,85 @@ PReadEvicted ==
           /\ pushres' = Append(pushres, [r |-> "evicted", v |-> ValAt(Slot(pr % NSlots), i)])
     /\ nextv' = nextv + 1
     /\ Goto(0, "idle")
-    /\ UNCHANGED <<pw, pr, cr, cw, cval, npop, popped, nones, race>>
+    /\ UNCHANGED <<pw, pr, cr, cw, cval, npop, holds, popped, nones, race>>
 
-\* ------------------------------------------------------------------ consumer
-CStart ==
-    /\ pc[1] = "idle" /\ npop < NPop
-    /\ npop' = npop + 1
-    /\ Goto(1, "c_ldrp")
+\* ------------------------------------------------------------------ consumer(s)
+\* token hand-over: acquire_consumer = CAS has_consumer 1 -> 0, drop of the Consumer = store 1
+CAcquire(c) ==
+    /\ Handover /\ pc[c] = "idle" /\ ~holds[c] /\ npop[c] < NPop
+    /\ \E i \in CasChoices(c, HC, Ord.hc_s, Ord.hc_f, 1) :
+          /\ Cas(c, HC, Ord.hc_s, Ord.hc_f, 1, 0, i)
+          /\ holds' = [holds EXCEPT ![c] = CasOk(HC, 1, i)]
+    /\ UNCHANGED <<pc, pw, pr, cr, cw, cval, nextv, npop, pushres, popped, nones, evicted, race>>
+
+CRelease(c) ==
+    /\ Handover /\ pc[c] = "idle" /\ holds[c] /\ npop[c] = NPop
+    /\ Store(c, HC, Ord.hc_rel, 1)
+    /\ holds' = [holds EXCEPT ![c] = FALSE]
+    /\ npop' = [npop EXCEPT ![c] = NPop + 1]          \* done for good
+    /\ UNCHANGED <<pc, pw, pr, cr, cw, cval, nextv, pushres, popped, nones, evicted, race>>
+
+CStart(c) ==
+    /\ pc[c] = "idle" /\ npop[c] < NPop /\ (Handover => holds[c])
+    /\ npop' = [npop EXCEPT ![c] = @ + 1]
+    /\ Goto(c, "c_ldrp")
     /\ MemSkip
-    /\ UNCHANGED <<pw, pr, cr, cw, cval, nextv, pushres, popped, nones, evicted, race>>
+    /\ UNCHANGED <<pw, pr, cr, cw, cval, nextv, holds, pushres, popped, nones, evicted, race>>
 
-CLoadRp ==
-    /\ pc[1] = "c_ldrp"
-    /\ \E i \in Readable(1, RP, Ord.c_rp) :
-          /\ Load(1, RP, Ord.c_rp, i)
-          /\ cr' = ValAt(RP, i)
-    /\ Goto(1, "c_ldwp")
-    /\ UNCHANGED <<pw, pr, cw, cval, nextv, npop, pushres, popped, nones, evicted, race>>
+CLoadRp(c) ==
+    /\ pc[c] = "c_ldrp"
+    /\ \E i \in Readable(c, RP, Ord.c_rp) :
+          /\ Load(c, RP, Ord.c_rp, i)
+          /\ cr' = [cr EXCEPT ![c] = ValAt(RP, i)]
+    /\ Goto(c, "c_ldwp")
+    /\ UNCHANGED <<pw, pr, cw, cval, nextv, npop, holds, pushres, popped, nones, evicted, race>>
 
-CLoadWp ==
-    /\ pc[1] = "c_ldwp"
-    /\ \E i \in Readable(1, WP, Ord.c_wp) :
-          /\ Load(1, WP, Ord.c_wp, i)
-          /\ cw' = ValAt(WP, i)
-          /\ IF cr = ValAt(WP, i)
+CLoadWp(c) ==
+    /\ pc[c] = "c_ldwp"
+    /\ \E i \in Readable(c, WP, Ord.c_wp) :
+          /\ Load(c, WP, Ord.c_wp, i)
+          /\ cw' = [cw EXCEPT ![c] = ValAt(WP, i)]
+          /\ IF cr[c] = ValAt(WP, i)
              THEN /\ nones' = nones + 1
-                  /\ Goto(1, "idle")
-             ELSE /\ Goto(1, "c_rd")
+                  /\ Goto(c, "idle")
+             ELSE /\ Goto(c, "c_rd")
                   /\ UNCHANGED nones
-    /\ UNCHANGED <<pw, pr, cr, cval, nextv, npop, pushres, popped, evicted, race>>
+    /\ UNCHANGED <<pw, pr, cr, cval, nextv, npop, holds, pushres, popped, evicted, race>>
 
-CReadSlot ==
-    /\ pc[1] = "c_rd"
-    /\ LET s == cr % NSlots IN
-       \E i \in Readable(1, Slot(s), "Relaxed") :
-          /\ IF UseMarks THEN PlainRead(1, Slot(s), Mark(s), i)
-                         ELSE Load(1, Slot(s), "Relaxed", i)
-          /\ cval' = ValAt(Slot(s), i)
-    /\ Goto(1, IF Overflow THEN "c_cas" ELSE "c_st")
-    /\ UNCHANGED <<pw, pr, cr, cw, nextv, npop, pushres, popped, nones, evicted, race>>
+CReadSlot(c) ==
+    /\ pc[c] = "c_rd"
+    /\ LET s == cr[c] % NSlots IN
+       \E i \in Readable(c, Slot(s), "Relaxed") :
+          /\ IF UseMarks THEN PlainRead(c, Slot(s), Mark(s), i)
+                         ELSE Load(c, Slot(s), "Relaxed", i)
+          /\ cval' = [cval EXCEPT ![c] = ValAt(Slot(s), i)]
+    /\ Goto(c, IF Overflow THEN "c_cas" ELSE "c_st")
+    /\ UNCHANGED <<pw, pr, cr, cw, nextv, npop, holds, pushres, popped, nones, evicted, race>>
 
-CStoreRp ==
-    /\ pc[1] = "c_st"
-    /\ Store(1, RP, Ord.c_st, cr + 1)
-    /\ popped' = Append(popped, cval)
-    /\ Goto(1, "idle")
-    /\ UNCHANGED <<pw, pr, cr, cw, cval, nextv, npop, pushres, nones, evicted, race>>
+CStoreRp(c) ==
+    /\ pc[c] = "c_st"
+    /\ Store(c, RP, Ord.c_st, cr[c] + 1)
+    /\ popped' = Append(popped, cval[c])
+    /\ Goto(c, "idle")
+    /\ UNCHANGED <<pw, pr, cr, cw, cval, nextv, npop, holds, pushres, nones, evicted, race>>
 
-CCasRp ==
-    /\ pc[1] = "c_cas"
-    /\ \E i \in CasChoices(1, RP, Ord.c_cas_s, Ord.c_cas_f, cr) :
-          /\ Cas(1, RP, Ord.c_cas_s, Ord.c_cas_f, cr, cr + 1, i)
-          /\ IF CasOk(RP, cr, i)
-             THEN /\ popped' = Append(popped, cval)
-                  /\ Goto(1, "idle")
+CCasRp(c) ==
+    /\ pc[c] = "c_cas"
+    /\ \E i \in CasChoices(c, RP, Ord.c_cas_s, Ord.c_cas_f, cr[c]) :
+          /\ Cas(c, RP, Ord.c_cas_s, Ord.c_cas_f, cr[c], cr[c] + 1, i)
+          /\ IF CasOk(RP, cr[c], i)
+             THEN /\ popped' = Append(popped, cval[c])
+                  /\ Goto(c, "idle")
                   /\ UNCHANGED cr
-             ELSE /\ cr' = ValAt(RP, i)
-                  /\ Goto(1, "c_rd")
+             ELSE /\ cr' = [cr EXCEPT ![c] = ValAt(RP, i)]
+                  /\ Goto(c, "c_rd")
                   /\ UNCHANGED popped
-    /\ UNCHANGED <<pw, pr, cw, cval, nextv, npop, pushres, nones, evicted, race>>
+    /\ UNCHANGED <<pw, pr, cw, cval, nextv, npop, holds, pushres, nones, evicted, race>>
 
 Next ==
     \/ PStart \/ PLoadWp \/ PLoadRp \/ PWriteSlot \/ PStoreWp \/ PCasRp \/ PReadEvicted
-    \/ CStart \/ CLoadRp \/ CLoadWp \/ CReadSlot \/ CStoreRp \/ CCasRp
+    \/ \E c \in Cons : CAcquire(c) \/ CRelease(c) \/ CStart(c) \/ CLoadRp(c) \/ CLoadWp(c) \/ CReadSlot(c)
+                       \/ CStoreRp(c) \/ CCasRp(c)
 
 Spec == Init /\ [][Next]_vars
 
@@ -195,7 +219,9 @@ Spec == Init /\ [][Next]_vars
 Range(s) == {s[i] : i \in DOMAIN s}
 Increasing(s) == \A i, j \in DOMAIN s : i < j => s[i] < s[j]
 
-Done == pc[0] = "idle" /\ pc[1] = "idle" /\ nextv > NPush /\ npop = NPop
+Done == /\ \A t \in Thr : pc[t] = "idle"
+        /\ nextv > NPush
+        /\ \A c \in Cons : npop[c] >= NPop
 
 PushedOk == {v \in 1..NPush : v <= Len(pushres) /\ pushres[v].r # "full"}
 
